@@ -69,6 +69,7 @@ def plan(tier, seed):
             shards.append({"kind": "dfs", "configs": cfgs[i:i + 8], "cap": 4000})
         for i in range(8):
             shards.append({"kind": "random", "configs": cfgs[i::8], "n_per": 150, "seed": seed * 31 + i})
+    shards.append({"kind": "stub", "seed": seed, "reps": 3 if tier == "quick" else 40})
     return shards
 
 
@@ -338,9 +339,136 @@ def judge(cfg, ch: Chooser, run, res: Result, hashes: set):
                       {"cfg": cfg, "choices": run["choices"]})
 
 
+# ---------------------------------------------------------------------------
+# consumer anchor: the channel consumed by ServiceStub._send_messages inside a generated stream-stream call
+
+async def _stub_scenario(b, stub_cls, base_cls, local_cls, sc, rng, res: Result, w):
+    import grpclib
+    from grpclib.testing import ChannelFor
+    from betterproto.grpc.util.async_channel import AsyncChannel
+
+    seen_by_handler, produced = [], []
+
+    async def stream_stream(self, request_iterator):
+        async for r in request_iterator:
+            seen_by_handler.append(r.name)
+            out = local_cls(name="echo:" + r.name)
+            produced.append(out.name)
+            yield out
+
+    impl = type("Impl", (base_cls,), {"stream_stream": stream_stream})()
+    loop = asyncio.get_running_loop()
+    loop_errors = []
+    loop.set_exception_handler(lambda l, ctx: loop_errors.append(str(ctx.get("message")) + ":" + repr(ctx.get("exception"))))
+    sent, received = [], []
+
+    async def yields():
+        for _ in range(rng.choice([0, 0, 1, 2, 3])):
+            await asyncio.sleep(0)
+
+    async with ChannelFor([impl]) as channel:
+        stub = stub_cls(channel)
+        ch = AsyncChannel(buffer_limit=sc["buf"])
+        n = sc["n"]
+        if sc["when"] == "before":
+            items = [local_cls(name=f"i{k}") for k in range(n)]
+            sent += [m.name for m in items]
+            await ch.send_from(items, close=True)
+
+        async def consume():
+            async for resp in stub.stream_stream(ch):
+                received.append(resp.name)
+                if sc["early"] and len(received) >= 1:
+                    break
+
+        task = asyncio.ensure_future(consume())
+        if sc["when"] == "after":
+            for k in range(n):
+                await yields()
+                m = local_cls(name=f"i{k}")
+                try:
+                    await asyncio.wait_for(ch.send(m), 5)
+                    sent.append(m.name)
+                except Exception as e:
+                    if not sc["early"]:
+                        res.violation("stub", ["send-raised:" + type(e).__name__, sc["tag"]], f"send #{k} raised {e!r}", w)
+                    break
+            await yields()
+            ch.close()
+        try:
+            await asyncio.wait_for(task, 10)
+        except asyncio.TimeoutError:
+            res.violation("stub", ["response-iteration-never-ended", sc["tag"]], f"scenario {sc}: the stub's response iterator did not end after close()", w)
+            task.cancel()
+            return
+        except Exception as e:
+            res.violation("stub", ["call-raised:" + type(e).__name__, sc["tag"]], f"scenario {sc}: {e!r}", w)
+            return
+        for _ in range(5):
+            await asyncio.sleep(0)
+    res.counters["stub_scenarios"] += 1
+    res.counters["schedules"] += 1
+    res.evaluations += 1
+    res.distinct.add("stub:" + json.dumps(sc, sort_keys=True) + str(len(received)))
+    if sc["early"]:
+        if received[:1] != [("echo:" + x) for x in sent[:1]] and sent:
+            res.violation("stub", ["early-termination-wrong-first-response", sc["tag"]], f"{received} vs sent {sent}", w)
+    else:
+        if seen_by_handler != sent:
+            kind = "lost" if len(seen_by_handler) < len(sent) else ("duplicated-or-invented" if len(seen_by_handler) > len(sent) else "reordered")
+            res.violation("stub", ["requests-" + kind, sc["tag"]], f"scenario {sc}: handler saw {seen_by_handler}, sent before close {sent}", w)
+        if received != produced:
+            res.violation("stub", ["responses-differ", sc["tag"]], f"scenario {sc}: received {received}, produced {produced}", w)
+    for m in loop_errors:
+        res.violation("stub", ["unretrieved-exception", sc["tag"]], f"scenario {sc}: {m[:200]}", w)
+
+
+def run_stub_shard(shard) -> Result:
+    from .. import corpus
+    from ..build import Build, BuildError
+    from .c11 import item_protos
+
+    res = Result()
+    try:
+        b = Build(item_protos({"kind": "svcmatrix"})).full()
+    except BuildError as e:
+        res.inconclusive.append(f"service matrix could not be built: {e.stage}: {e.detail[-300:]}")
+        return res
+    try:
+        mod = b.module("vf.svc")
+        rng = random.Random(f"c12stub-{shard['seed']}")
+        scs = []
+        for n in (0, 1, 2, 3):
+            for when in ("before", "after"):
+                for buf in (0, 1):
+                    for early in (False, True):
+                        if early and n == 0:
+                            continue
+                        if when == "before" and buf and n > buf:
+                            continue  # send_from before any consumer exists would block on the full buffer by construction
+                        scs.append({"n": n, "when": when, "buf": buf, "early": early,
+                                    "tag": f"{when}-{'early' if early else 'full'}-{'bounded' if buf else 'unbounded'}"})
+        for rep in range(shard["reps"]):
+            for sc in scs:
+                w = {"kind": "stub", "sc": sc, "seed": shard["seed"], "rep": rep}
+                try:
+                    asyncio.run(asyncio.wait_for(_stub_scenario(b, mod.MatrixStub, mod.MatrixBase, mod.Local, sc, rng, res, w), 30))
+                except asyncio.TimeoutError:
+                    res.violation("stub", ["hang", sc["tag"]], f"scenario {sc} did not finish", w)
+                except Exception as e:
+                    res.inconclusive.append(f"stub scenario crashed: {type(e).__name__}: {e}\n{traceback.format_exc()[-800:]}")
+                    return res
+        res.sample({"stub_consumer": "AsyncChannel consumed by ServiceStub._send_messages in MatrixStub.stream_stream", "scenarios": len(scs)})
+    finally:
+        b.cleanup()
+    return res
+
+
 def run_shard(shard) -> Result:
     import betterproto  # noqa: F401  (tree under test on the path)
 
+    if shard.get("kind") == "stub":
+        return run_stub_shard(shard)
     res = Result()
     try:
         for cfg in shard["configs"]:
@@ -367,6 +495,8 @@ def run_shard(shard) -> Result:
 def replay(w):
     import betterproto  # noqa: F401
 
+    if w.get("kind") == "stub":
+        return run_stub_shard({"seed": w["seed"], "reps": w["rep"] + 1}).violations
     res = Result()
     ch = Chooser(w["choices"])
     judge(w["cfg"], ch, run_schedule(w["cfg"], ch), res, set())
